@@ -144,6 +144,9 @@ static void draw(void) {
   /* D9: require() calls the reader once; excluded: every reader that returns less than both the request and the rest of the stream */
   for (u64 i = 0; i <= LMAX; ++i) KNOWN_EXCLUDE(T[i] != LMAX);
 #endif
+#ifdef KF_ONLY_D9
+  { int any_short = 0; for (u64 i = 0; i <= LMAX; ++i) if (T[i] != LMAX) any_short = 1; KNOWN_ONLY(any_short); }
+#endif
   rd = 0; n_calls = n_short = n_zero = 0; al_n[0] = al_n[1] = 0; al_sel = 0; snaps_ = 0; base_ = 0;
 }
 /* the state reached by the set-up (its invariant was checked in the snapshot) */
